@@ -89,26 +89,55 @@ static inline void yk_log(const char* file, uint32_t line, uint32_t sev)
 extern char yk_ostream[512];
 extern uint32_t yk_errno;
 
-/* ---- allocation: malloc/free + ghost accounting.  Allocation never fails (outside the claim). */
+/* ---- allocation: malloc/free + ghost table (size, alignment, live).  Allocation never fails (outside the claim).
+ * A sized/aligned delete that does not match the allocation, a double free, or a free of a non-heap pointer is an
+ * assertion failure. */
+#ifndef YK_NALLOC
+#define YK_NALLOC 24
+#endif
 extern int64_t yk_live;            /* live library allocations */
 extern uint64_t yk_news, yk_deletes;
-static inline void yk_new_typed(void* p, uint64_t n, uint64_t al) { (void)n; (void)al; YK_ASSUME(p != 0); yk_live++; yk_news++; }
+extern void* yk_ap[YK_NALLOC];
+extern uint64_t yk_an[YK_NALLOC], yk_aa[YK_NALLOC];
+extern uint8_t yk_al[YK_NALLOC];
+static inline void yk_track(void* p, uint64_t n, uint64_t al)
+{
+    YK_ASSERT(yk_news < YK_NALLOC, "bound: more than YK_NALLOC allocations in one harness");
+    if (yk_news < YK_NALLOC) { yk_ap[yk_news] = p; yk_an[yk_news] = n; yk_aa[yk_news] = al; yk_al[yk_news] = 1; }
+    yk_live++; yk_news++;
+}
+static inline void yk_new_typed(void* p, uint64_t n, uint64_t al) { YK_ASSUME(p != 0); yk_track(p, n, al); }
 static inline void* yk_new(uint64_t n, uint64_t al)
 {
-    (void)al;
     YK_ASSERT(n <= YK_VAL_CAP, "bound: untyped allocation larger than YK_VAL_CAP");
     YK_ASSUME(n <= YK_VAL_CAP);
     void* p = malloc(YK_VAL_CAP);
     YK_ASSUME(p != 0);
-    yk_live++; yk_news++;
+    yk_track(p, n, al);
     return p;
+}
+static inline int yk_is_live(const void* p)
+{
+    for (unsigned i = 0; i < YK_NALLOC; i++) if (i < yk_news && yk_ap[i] == p) return yk_al[i];
+    return 0;
 }
 static inline void yk_delete(void* p, uint64_t n, uint64_t al, int how)
 {
-    (void)n; (void)al; (void)how;
     if (p == 0) return;
+    int found = 0;
+    for (unsigned i = 0; i < YK_NALLOC; i++) {
+        if (i < yk_news && yk_ap[i] == p) {
+            found = 1;
+            YK_ASSERT(yk_al[i], "fault: double free");
+            if (how & 1) YK_ASSERT(yk_an[i] == n, "fault: sized delete with a size different from the allocation");
+            if (how & 2) YK_ASSERT(yk_aa[i] == al, "fault: aligned delete with an alignment different from the allocation");
+            else YK_ASSERT(yk_aa[i] <= 16, "fault: over-aligned block released by a plain delete");
+            yk_al[i] = 0;
+        }
+    }
+    YK_ASSERT(found, "fault: delete of a pointer that was not allocated by operator new");
     yk_live--; yk_deletes++;
-    free(p);
+    if (found) free(p);
 }
 
 /* ---- string/memory helpers with explicit small bounds */
